@@ -218,11 +218,17 @@ def validators(ctx, rule):
                 if arg is None:
                     continue
                 n += 1
+                # the function whose paths lead to the construction: the innermost def around it (a repeated tail given a
+                # name as a nested function validates inside that function)
+                scope = fn
+                for d in ast.walk(fn):
+                    if isinstance(d, ast.FunctionDef) and d is not fn and any(x is call for x in ast.walk(d)) and sum(1 for _ in ast.walk(d)) < sum(1 for _ in ast.walk(scope)):
+                        scope = d
                 st = None
-                for s in ast.walk(fn):
+                for s in ast.walk(scope):
                     if isinstance(s, ast.Return) and any(x is call for x in ast.walk(s)):
                         st = s
-                guards = _enclosing_tests(fn, st) if st is not None else []
+                guards = _enclosing_tests(scope, st) if st is not None else []
                 argtxt = re.sub(r"\s+", "", unparse(arg))
                 ok = False
                 for t, pol in guards:
@@ -231,7 +237,7 @@ def validators(ctx, rule):
                         ok = True
                 # early-exit form:  if not validator(v): return   before the construction
                 if not ok and st is not None:
-                    ok = _early_exit_validates(fn, st, validator, argtxt)
+                    ok = _early_exit_validates(scope, st, validator, argtxt)
                 ctx.ob(rule, "%s.%s/%s(%s=%s)" % (modname, fn.name, call.func.id, field, argtxt[:30]), ok,
                        "%s.%s builds %s with %s=%s without %s(%s) having succeeded: a record can carry an id the module's own validator rejects" % (modname, fn.name, call.func.id, field, unparse(arg), validator, unparse(arg)),
                        mod.site(call), sample="%s(%s=%s) guarded by %s" % (call.func.id, field, unparse(arg), validator))
